@@ -241,6 +241,14 @@ Lemma geval_S n e f st :
       | (Fatal x, st1) => (Fatal x, st1)
       end
     | SkipTo e1 => skipto_go text re_at ic n (gev n) e1 f st
+    | Assoc lft e1 =>
+      match gev n e1 (push f) st with      (* a state scope of its own: the tree replaces the flat list there, then merges *)
+      | (Ok r f1, st1) =>
+        let v := (if lft then left_assoc else right_assoc) (list_items r) in
+        (Ok v (merge f (set_cst f1 v)), st1)
+      | (Fail _, st1) => (Fail (cutseen f), st1)
+      | (Fatal x, st1) => (Fatal x, st1)
+      end
     | Call r => on_call n (gev n) r f st
     | Named false nm e1 =>
       match gev n e1 f st with
@@ -295,7 +303,7 @@ Lemma geval_step_rel n1 n2 : n1 <= n2 ->
 Proof.
   intros Hn X XC e f s1 s2 r s1' HR E Hr.
   rewrite geval_S in E. rewrite geval_S.
-  destruct e as [l|es|es|e1|e1|e1|plus sep omitsep e1|neg e1|e1|rr|il nm e1|il e1].
+  destruct e as [l|es|es|e1|e1|e1|plus sep omitsep e1|neg e1|e1|lft e1|rr|il nm e1|il e1].
   - eapply leaf_eval_rel; eassumption.
   - eapply seq_go_rel; eassumption.
   - eapply choice_go_rel; eassumption.
@@ -319,6 +327,10 @@ Proof.
       destruct (X _ _ _ _ _ _ HR E1 Hr1) as [s2a [E2 HR2]]. rewrite E2.
       destruct r1 as [v f1|c|k]; inversion E; subst; exists s2a; (split; [reflexivity|first [exact HR2 | exact I]]).
   - eapply skipto_go_rel; eassumption.
+  - destruct (gev1 n1 e1 (push f) s1) as [r1 s1a] eqn:E1.
+    assert (Hr1 : r1 <> Fatal OOF) by (intros ->; inversion E; subst; apply Hr; reflexivity).
+    destruct (X _ _ _ _ _ _ HR E1 Hr1) as [s2a [E2 HR2]]. rewrite E2.
+    destruct r1 as [v f1|c|k]; inversion E; subst; exists s2a; (split; [reflexivity|first [exact HR2 | exact I]]).
   - eapply XC; eassumption.
   - destruct il.
     + destruct (gev1 n1 e1 f s1) as [r1 s1a] eqn:E1.
